@@ -102,8 +102,9 @@ def run(tier="quick", seed=1, work=None, replay=None, focus="C15", ncases=None):
             if vr is None:
                 rep.disagree({"what": ["no verification_result event"], "stderr": err[-300:], "rc": rc, **desc})
             else:
-                real = {"exit": rc, "matched": vr["files_matched"], "mismatched": sorted(vr["files_mismatched"]), "only_src": sorted(vr["files_only_in_source"]),
-                        "only_dst": sorted(vr["files_only_in_dest"]), "errors": sorted(e["path"] for e in vr["errors"])}
+                unl = unlossy(set(pre_s) | set(pre_d))        # JSON paths are lossy for names that are not UTF-8
+                real = {"exit": rc, "matched": vr["files_matched"], "mismatched": sorted(unl(p) for p in vr["files_mismatched"]), "only_src": sorted(unl(p) for p in vr["files_only_in_source"]),
+                        "only_dst": sorted(unl(p) for p in vr["files_only_in_dest"]), "errors": sorted(unl(e["path"]) for e in vr["errors"])}
                 if vr.get("exit_code") != rc: rep.oracle_fail("C15/exit-code-field-differs-from-status", f"exit_code field {vr.get('exit_code')} but process status {rc}", desc)
                 if real != mm:
                     rep.disagree({"what": [k for k in real if real[k] != mm[k]], "details": [f"{k}: impl={real[k]} model={mm[k]}"[:300] for k in real if real[k] != mm[k]], **desc})
